@@ -190,6 +190,10 @@ class RectGrid(Set):
         # Lazily evaluates strides when needed but stores the result
         self.__stride = None
 
+        # The grid is immutable, hence the (private copies of the) vectors
+        # are handed out read-only
+        for vec in vecs:
+            vec.flags.writeable = False
         self.__coord_vectors = vecs
 
         # Non-degenerate axes
